@@ -74,12 +74,21 @@ def cases(tier, seed):
         out.append({"k": "lead", "i0": i0, "i1": min(len(items), i0 + 6), "tier": tier})
     for i0 in range(0, len(items), 10):
         out.append({"k": "misc", "i0": i0, "i1": min(len(items), i0 + 10), "tier": tier})
+    # the same arrays while the retain options are set globally (inputs built before, so they still carry unused names / zero terms)
+    for i0 in range(0, len(items), 12):
+        for rn, rc in ((False, False), (False, True), (True, True)):
+            out.append({"k": "lead", "i0": i0, "i1": min(len(items), i0 + 12), "tier": tier, "retain": [rn, rc], "step": 3})
+            out.append({"k": "misc", "i0": i0, "i1": min(len(items), i0 + 12), "tier": tier, "retain": [rn, rc], "step": 3})
     out.append({"k": "lead", "twins": True})
     out.append({"k": "lead", "magnitudes": True})
     out.append({"k": "lead", "wide": True})
     out.append({"k": "misc", "wide": True})
     out.append({"k": "misc", "magnitudes": True})
     out.append({"k": "misc", "twins": True})
+    # every exponent up to 2100 (all code-point classes of the key characters) and tuples of the special ones
+    for e0 in range(0, 2100, 150):
+        out.append({"k": "expblocks", "e0": e0, "e1": e0 + 150})
+    out.append({"k": "expblocks", "tuples": True})
     for i in range(len(space.dense_specs())):
         out.append({"k": "lead", "dense": i})
         out.append({"k": "misc", "dense": i})
@@ -94,7 +103,86 @@ def prekey(el, names, graded, reverse):
     return (mono_key(l[0], graded, reverse, names), l[1])
 
 
+def run_expblocks(case, R):
+    """leading terms, decomposition and dictionaries of monomials q0**e for every e (arrays of 50), and of two-name
+    monomials over the exponents whose key characters are special (digits of other scripts, surrogates, ...)"""
+    from .C20 import build_block, model_block, build_tuples, tuples_model
+    if case.get("tuples"):
+        dig = [0, 1, 9, 119, 120, 126, 197, 1573, 1582]
+        tp = list(itertools.product(dig, repeat=2))
+        coef = [(i % 5) + 1 for i in range(len(tp))]
+        blocks = [(("q0", "q1"), build_tuples(("q0", "q1"), tp, coef), tuples_model(("q0", "q1"), tp, coef), f"2-tuples over {dig}")]
+        # all of them as the terms of ONE polynomial too
+        sp = spec(("q0", "q1"), (), [(t, c) for t, c in zip(tp, coef)])
+        blocks.append((("q0", "q1"), build_checked(sp), model_of(sp), f"sum of all 2-tuples over {dig}"))
+    else:
+        blocks = []
+        for b0 in range(case["e0"], case["e1"], 50):
+            es = list(range(b0, b0 + 50))
+            p, coef = build_block(es)
+            blocks.append((("q0",), p, model_block(es, coef), f"q0**e for e in {b0}..{b0 + 49}"))
+    for names, p, m, lab in blocks:
+        R.state(("expblocks", lab))
+        shape = m.shape
+        flat = [dict(x) for x in m.elements().ravel().tolist()] if shape else [dict(m.elements().item())]
+        tags = ["expblocks"]
+        for graded, reverse in FLAGS:
+            leads = [lead(el, names, graded, reverse) for el in flat]
+            want_e = numpy.array([[dict(l[0]).get(n, 0) for n in names] if l else [0] * len(names) for l in leads]).reshape(shape + (len(names),))
+            want_c = numpy.array([l[1] if l else 0 for l in leads]).reshape(shape)
+            R.tr(2)
+            try:
+                got = numpy.asarray(numpoly.lead_exponent(p, graded=graded, reverse=reverse))
+                if got.shape != want_e.shape or not numpy.array_equal(got, want_e):
+                    R.fail("lead_exponent", "wrong-value", f"{lab} graded={graded} reverse={reverse}: {got.tolist()[:6]} != {want_e.tolist()[:6]}"[:400], tags=tags)
+                got = numpy.asarray(numpoly.lead_coefficient(p, graded=graded, reverse=reverse))
+                if got.shape != want_c.shape or not numpy.array_equal(got, want_c):
+                    R.fail("lead_coefficient", "wrong-value", f"{lab} graded={graded} reverse={reverse}: {got.tolist()[:6]} != {want_c.tolist()[:6]}"[:400], tags=tags)
+            except Exception as err:  # noqa: BLE001
+                R.fail("lead_exponent", "exception", f"{lab}: {type(err).__name__}: {err}", tags=tags)
+        R.tr()
+        try:
+            dec = numpoly.decompose(p)
+            da = alpha(dec)
+            total = V({}, shape)
+            probs = []
+            for i in range(dec.shape[0]):
+                sl = da.map(lambda c: c[i])
+                if len(sl.t) > 1:
+                    probs.append(f"slice {i} has {len(sl.t)} monomials")
+                total = total + sl
+            if tuple(dec.shape[1:]) != tuple(shape) or total != m:
+                probs.append(f"{dec.shape[0]} slices of shape {dec.shape[1:]} sum to another polynomial ({len(total.t)} monomials, expected {len(m.t)})")
+            if probs:
+                R.fail("decompose", "wrong-value", f"{lab}: " + "; ".join(probs)[:300], tags=tags)
+            else:
+                R.outcome(("decompose", lab))
+        except Exception as err:  # noqa: BLE001
+            R.fail("decompose", "exception", f"{lab}: {type(err).__name__}: {err}", tags=tags)
+        R.tr()
+        try:
+            d = p.todict()
+            t = {}
+            from ..model import exact_array
+            for ex, c in d.items():
+                mm = frozenset((n, int(x)) for n, x in zip(p.names, ex) if x)
+                c = exact_array(numpy.asarray(c))
+                t[mm] = t[mm] + c if mm in t else c
+            if V(t, shape) != m:
+                R.fail("todict", "wrong-value", f"{lab}: {len(d)} entries denote another polynomial", tags=tags)
+        except Exception as err:  # noqa: BLE001
+            R.fail("todict", "exception", f"{lab}: {type(err).__name__}: {err}", tags=tags)
+        R.tr()
+        try:
+            if bool(numpoly.isconstant(p)) != m.isconstant():
+                R.fail("isconstant", "wrong-value", f"{lab}: {numpoly.isconstant(p)}", tags=tags)
+        except Exception as err:  # noqa: BLE001
+            R.fail("isconstant", "exception", f"{lab}: {type(err).__name__}: {err}", tags=tags)
+
+
 def run_case(case, R):
+    if case["k"] == "expblocks":
+        return run_expblocks(case, R)
     if case.get("wide"):
         items = [(tuple(sp["n"]), tuple(sp["s"]), i, sp["d"], sp) for i, (_, sp) in enumerate(space.wide_specs() + space.wide_array_specs())]
     elif "dense" in case:
@@ -104,14 +192,26 @@ def run_case(case, R):
     elif case.get("twins"):
         items = [(tuple(sp["n"]), tuple(sp["s"]), i, sp["d"], sp) for i, sp in enumerate(space.twin_sequence())]
     else:
-        items = list(arrays(case.get("tier", "quick")))[case["i0"]:case["i1"]]
-    for names, shape, rot, kind, sp in items:
-        p, m = build_checked(sp), model_of(sp)
+        items = list(arrays(case.get("tier", "quick")))[case["i0"]:case["i1"]][::case.get("step", 1)]
+    retain = case.get("retain")
+    if retain:
+        # inputs get an unused indeterminate and a zero term; they are built BEFORE the options are set
+        items = [(n_, s_, r_, k_, dict(sp_, v="unusedname" if i % 2 else "zeroterm")) for i, (n_, s_, r_, k_, sp_) in enumerate(items)]
+        built = [(build_checked(sp_), model_of(sp_)) for *_, sp_ in items]
+        with numpoly.global_options(retain_names=retain[0], retain_coefficients=retain[1]):
+            return run_items(case, R, items, built, [f"retain_names={retain[0]}", f"retain_coefficients={retain[1]}"])
+    return run_items(case, R, items, None, [])
+
+
+def run_items(case, R, items, built, extra_tags):
+    for j, (names, shape, rot, kind, sp) in enumerate(items):
+        p, m = built[j] if built else (build_checked(sp), model_of(sp))
+        names = tuple(p.names)
         els = m.elements()
         flat = [dict(x) for x in els.ravel().tolist()]
         lab = f"{names} {shape} rot{rot} {kind}"
-        tags = [f"names={len(names)}", f"ndim={len(shape)}"]
-        R.state((case["k"], lab))
+        tags = [f"names={len(names)}", f"ndim={len(shape)}"] + extra_tags
+        R.state((case["k"], lab) + tuple(extra_tags))
         if case["k"] == "lead":
             for graded, reverse in FLAGS:
                 tg = tags + [f"graded={graded}", f"reverse={reverse}"]
